@@ -107,7 +107,7 @@ def body():
             want = None
             if kind == "pot":
                 # a potential operator is observed through its action on the grid functions of its space
-                for f, c in pool.c.items():
+                for f, c in ((f_, c_) for f_, c_ in pool.c.items() if f_ in pool.gf):
                     if pool.gfsp[f] == ob["type"]["sp"]:
                         got = np.asarray(obj.evaluate(pool.gf[f]))
                         want = pool.evalpot(ob["den"], c)
@@ -161,6 +161,17 @@ def body():
                 x = np.arange(1.0, W.shape[1] + 1)
                 if not ra.close(W @ x, want.dot(x)) or not ra.close(W @ (x * (1 + 2j)), want.dot(x * (1 + 2j))):
                     chk.violation("discrete:%s" % shp, "blocked weak form of %s: matvec disagrees with to_dense" % label, {"term": t})
+                X2 = np.array([x, x[::-1] * (1 - 1j)]).T
+                try:
+                    bad = not ra.close(W @ X2, want.dot(X2)) or not ra.close(W @ x.reshape(-1, 1), want.dot(x.reshape(-1, 1))) or not ra.close(W.matmat(X2.real), want.dot(X2.real))
+                    Sd = np.asarray(obj.strong_form().to_dense())
+                    bad_s = not ra.close(obj.strong_form() @ X2, Sd.dot(X2)) or not ra.close(obj.strong_form() @ x, Sd.dot(x))
+                except Exception as exc:
+                    bad, bad_s = "%s: %s" % (type(exc).__name__, str(exc)[:120]), False
+                if bad:
+                    chk.violation("discrete:matmat:%s" % shp, "blocked weak form of %s applied to a 2-D array disagrees with to_dense%s" % (label, "" if bad is True else " (" + bad + ")"), {"term": t})
+                if bad_s:
+                    chk.violation("discrete:strong:%s" % shp, "blocked strong form of %s: matvec/matmat disagree with its to_dense" % label, {"term": t})
                 if [s for s in obj.domain_spaces] != [pool.sp[i] for i in ty["doms"]] or [s for s in obj.range_spaces] != [pool.sp[i] for i in ty["rans"]]:
                     chk.violation("type:%s" % shp, "%s: block spaces differ from the typed ones" % label, {"term": t})
             elif kind == "gfl":
